@@ -235,6 +235,8 @@ struct Held {
     /// bytes this slot wrote / read so far
     wrote: Vec<u8>,
     nread: usize,
+    /// read_exact calls issued on this slot
+    reads_issued: usize,
     /// raw mode: `sent_total` of the peer at hand-over
     handover_off: usize,
 }
@@ -298,6 +300,8 @@ struct Session {
 pub struct C14 {
     sess: Option<Session>,
     trace: Vec<Value>,
+    /// (side, slot) of a `flush` that just returned Ok
+    flushed: Option<(usize, u64)>,
 }
 
 fn run_class(r: &Cell<Result<(), hook::RunError>>) -> &'static str {
@@ -561,6 +565,18 @@ impl C14 {
             }
             new_out.push(frames);
         }
+        // pass 1b: after a successful flush everything written on that transient stream is on the wire
+        if let Some((si, slot)) = self.flushed.take() {
+            let s = &sess.sides[si];
+            if let Some(SlotSt::Held(h)) = s.slots.get(&slot) {
+                if run_class(&s.run) == "up" && !h.write_dropped {
+                    let on_wire = s.tx_state.get(&(h.conn, h.id)).filter(|e| e.2 == h.sess && e.0 == 1).map(|e| e.1.clone()).unwrap_or_default();
+                    if on_wire != h.wrote {
+                        fail("flush_not_on_wire", format!("side {si} slot {slot}: flush returned Ok, {} of {} written bytes are visible on the transport", on_wire.len(), h.wrote.len()));
+                    }
+                }
+            }
+        }
         // pass 2: completions
         #[allow(clippy::type_complexity)]
         let mut reads: Vec<(usize, u64, bool, u16, usize, usize, Vec<u8>, bool)> = vec![];
@@ -616,6 +632,7 @@ impl C14 {
                                 sess: sess_no,
                                 wrote: vec![],
                                 nread: 0,
+                                reads_issued: 0,
                                 handover_off: sent_total,
                             });
                             done.push(json!([si, slot, "open", conn as u8, id]));
@@ -725,7 +742,7 @@ impl C14 {
                     // of what is still buffered if earlier frames were sent before hand-over)
                     let inflight = h.reading.as_ref().map(|r| r.0).unwrap_or(0);
                     unread_bytes += got.saturating_sub(h.nread + inflight) as u64;
-                    if h.nread == 0 && h.reading.is_none() {
+                    if h.reads_issued == 0 {
                         unread_frames += pieces;
                     }
                 }
@@ -865,6 +882,7 @@ impl C14 {
             let sess = self.sess.as_mut().unwrap();
             sess.collect_write(Self::side_of(op), op, res)
         };
+        self.flushed = if kind == "flush" && res == "ok" { Some((Self::side_of(op), op["slot"].as_u64().unwrap_or(0))) } else { None };
         self.finish_obs(obs, &res, out)
     }
 }
@@ -1006,6 +1024,7 @@ impl Session {
             *c2.lock().unwrap() = Some((rh, r));
         });
         h.reading = Some((n, c));
+        h.reads_issued += 1;
         "ok".into()
     }
 
@@ -1136,7 +1155,7 @@ impl Prop for C14 {
 }
 
 fn main() {
-    let mut p = C14 { sess: None, trace: vec![] };
+    let mut p = C14 { sess: None, trace: vec![], flushed: None };
     vharness::main_for(&mut p);
     p.teardown();
 }
@@ -1150,6 +1169,8 @@ struct G<'a> {
     next_slot: [u64; 2],
     /// slots created so far per side: (slot, queue 0/1, cap)
     slots: [Vec<(u64, usize, u64)>; 2],
+    /// slots whose open the generator has also answered on the other end (probably established)
+    likely: [Vec<(u64, usize, u64)>; 2],
     seq: u64,
 }
 
@@ -1159,11 +1180,25 @@ fn caps_json(c: &[(u64, u32)]) -> Value {
 
 impl<'a> G<'a> {
     fn new(rng: &'a mut StdRng) -> Self {
-        G { rng, ops: vec![], next_slot: [1, 1], slots: [vec![], vec![]], seq: 0 }
+        G { rng, ops: vec![], next_slot: [1, 1], slots: [vec![], vec![]], likely: [vec![], vec![]], seq: 0 }
     }
     fn reset(&mut self) {
         self.next_slot = [1, 1];
         self.slots = [vec![], vec![]];
+        self.likely = [vec![], vec![]];
+    }
+    /// the slots to choose from: mostly the established ones, sometimes any
+    fn have(&mut self, side: usize) -> Vec<(u64, usize, u64)> {
+        if !self.likely[side].is_empty() && self.r(0, 99) < 85 {
+            self.likely[side].clone()
+        } else {
+            self.slots[side].clone()
+        }
+    }
+    fn mark(&mut self, side: usize, slot: u64) {
+        if let Some(e) = self.slots[side].iter().find(|e| e.0 == slot).copied() {
+            self.likely[side].push(e);
+        }
     }
     fn r(&mut self, lo: u64, hi: u64) -> u64 {
         self.rng.gen_range(lo..=hi)
@@ -1271,7 +1306,7 @@ impl<'a> G<'a> {
         let acc_caps: Vec<u64> = cap_map(&acc).keys().copied().collect();
         let con_caps: Vec<u64> = cap_map(&con).keys().copied().collect();
         for _ in 0..len {
-            let have: Vec<(u64, usize, u64)> = self.slots[0].clone();
+            let have: Vec<(u64, usize, u64)> = self.have(0);
             let choice = self.r(0, 99);
             match choice {
                 0..=7 if !con_caps.is_empty() => {
@@ -1281,6 +1316,9 @@ impl<'a> G<'a> {
                     if self.r(0, 9) < 7 {
                         let f = self.sf(slot, 0, 0);
                         self.wire(vec![f]);
+                        if rg[1].iter().any(|x| x.0 == c && x.2 > 0) {
+                            self.mark(0, slot);
+                        }
                     }
                 }
                 8..=15 if nacc > 0 => {
@@ -1290,7 +1328,8 @@ impl<'a> G<'a> {
                     self.wire(vec![f]);
                     if self.r(0, 9) < 8 {
                         if let Some((c, _, _)) = rg[0].iter().find(|(_, b, n)| (id as u32) >= *b && (id as u32) < b + n) {
-                            self.open(0, 0, *c);
+                            let slot = self.open(0, 0, *c);
+                            self.mark(0, slot);
                         }
                     }
                 }
@@ -1347,10 +1386,11 @@ impl<'a> G<'a> {
                 _ => self.quiet(),
             }
         }
-        // drain: read whatever is left on every slot
+        // drain: read whatever is left on the established slots (and on a few others)
         let have: Vec<(u64, usize, u64)> = self.slots[0].clone();
         for (slot, _, _) in have {
-            if self.r(0, 2) == 0 {
+            let est = self.likely[0].iter().any(|e| e.0 == slot);
+            if self.r(0, 2) == 0 && (est || self.r(0, 4) == 0) {
                 self.read(0, slot, 64);
             }
         }
@@ -1589,21 +1629,28 @@ impl<'a> G<'a> {
         let uni = [0u64, 1, 2];
         let (acc, con, pacc, pcon) = (self.caps(&uni), self.caps(&uni), self.caps(&uni), self.caps(&uni));
         self.ops.push(json!({"op":"init","reset":true,"mode":"pair","cfg":cfg_a,"pcfg":cfg_b,"acc":caps_json(&acc),"con":caps_json(&con),"pacc":caps_json(&pacc),"pcon":caps_json(&pcon)}));
+        let rga = [ranges(&cap_map(&acc), &cap_map(&pcon).into_iter().collect::<Vec<_>>()), ranges(&cap_map(&con), &cap_map(&pacc).into_iter().collect::<Vec<_>>())];
+        let rgb = [ranges(&cap_map(&pacc), &cap_map(&con).into_iter().collect::<Vec<_>>()), ranges(&cap_map(&pcon), &cap_map(&acc).into_iter().collect::<Vec<_>>())];
+        let rgs = [rga, rgb];
         let caps: [[Vec<u64>; 2]; 2] = [
             [cap_map(&acc).keys().copied().collect(), cap_map(&con).keys().copied().collect()],
             [cap_map(&pacc).keys().copied().collect(), cap_map(&pcon).keys().copied().collect()],
         ];
         for _ in 0..len {
             let side = self.r(0, 1) as usize;
-            let have: Vec<(u64, usize, u64)> = self.slots[side].clone();
+            let have: Vec<(u64, usize, u64)> = self.have(side);
             match self.r(0, 99) {
                 0..=11 => {
                     // connect on one side, usually accept on the other
                     if !caps[side][1].is_empty() {
                         let c = self.pick(&caps[side][1]);
-                        self.open(side, 1, c);
+                        let s1 = self.open(side, 1, c);
                         if self.r(0, 9) < 8 && caps[1 - side][0].contains(&c) {
-                            self.open(1 - side, 0, c);
+                            let s2 = self.open(1 - side, 0, c);
+                            if rgs[side][1].iter().any(|x| x.0 == c && x.2 > 0) {
+                                self.mark(side, s1);
+                                self.mark(1 - side, s2);
+                            }
                         }
                     }
                 }
@@ -1639,7 +1686,7 @@ impl<'a> G<'a> {
             }
         }
         for side in 0..2 {
-            let have: Vec<(u64, usize, u64)> = self.slots[side].clone();
+            let have: Vec<(u64, usize, u64)> = self.likely[side].clone();
             for (slot, _, _) in have {
                 if self.r(0, 1) == 0 {
                     self.drop(side, slot, "w");
@@ -1649,7 +1696,10 @@ impl<'a> G<'a> {
         for side in 0..2 {
             let have: Vec<(u64, usize, u64)> = self.slots[side].clone();
             for (slot, _, _) in have {
-                self.read(side, slot, 1000);
+                let est = self.likely[side].iter().any(|e| e.0 == slot);
+                if est || self.r(0, 4) == 0 {
+                    self.read(side, slot, 1000);
+                }
             }
         }
         self.quiet();
@@ -1666,7 +1716,7 @@ fn annotate(ops: Vec<Value>, opts: &Opts) -> Vec<Value> {
         Ok(o) => o,
         Err(_) => return ops,
     };
-    let mut p = C14 { sess: None, trace: vec![] };
+    let mut p = C14 { sess: None, trace: vec![], flushed: None };
     let mut res = vec![];
     for mut op in ops {
         let obs = p.exec(&op, &mut out);
